@@ -4,7 +4,7 @@ from vlib.core import write_cfg, validate_trace, count_lines
 LEVEL = "model_checking"
 META = {
     "technique": "TLA+ spec Cache.tla (one action per lock region of cache/data.go, OnDelete window explicit) model-checked by TLC over 135 configurations; every behaviour to the depth bound plus simulated long behaviours replayed event-by-event on cache.New(conf); recorded random real histories trace-validated by TLC",
-    "level_text": "TLC exhaustively checks the design for all 135 combinations of MaxSize/MaxElementSize/MaxCount/EnableLRU/OnDelete (incl. calls nested in OnDelete to depth 2): count/size bounds and exact size bookkeeping in every state, LRU order a permutation of the live keys, entries vanish only by Del/Clear/replacement/LRU eviction, refused Sets change nothing, hit/miss count Gets; a separate family lets the OnDelete call-back panic (the Set unwinds with the lock free, nothing else changes, every later call works). The binding then forces every behaviour of the spec up to the depth bound (all configs) and thousands of simulated long behaviours on the real cache, comparing after EVERY event the return value, the exact OnDelete(key,value) sequence and a Stats() snapshot (also inside OnDelete), and finally the contents; in the other direction random real histories (random configs up to MaxSize 300 / MaxCount 12, 16 keys, values 0..40 bytes, nested re-entrant calls) must be accepted event-by-event by TLC against the same actions.",
+    "level_text": "TLC exhaustively checks the design for all 135 combinations of MaxSize/MaxElementSize/MaxCount/EnableLRU/OnDelete (incl. calls nested in OnDelete to depth 2): count/size bounds and exact size bookkeeping in every state, LRU order a permutation of the live keys, entries vanish only by Del/Clear/replacement/LRU eviction, refused Sets change nothing, hit/miss count Gets; a separate family lets the OnDelete call-back panic (the Set unwinds with the lock free, nothing else changes, every later call works). The binding then forces every behaviour of the spec up to the depth bound (all configs) and thousands of simulated long behaviours on the real cache, comparing after EVERY event the return value, the exact OnDelete(key,value) sequence and a Stats() snapshot (also inside OnDelete), and finally the contents; keys and values are sub-slices of one caller arena that must stay intact, and every second call hands its key over in a scratch buffer that the caller overwrites as soon as the call has returned (Set only without LRU); in the other direction random real histories (random configs up to MaxSize 300 / MaxCount 12, 16 keys, values 0..40 bytes, nested re-entrant calls) must be accepted event-by-event by TLC against the same actions.",
     "level_note": "Bounded depth for the exhaustive part (3 events quick / 4 thorough over all configs, deeper for tight configs), sampling beyond; the harness' concretisation of abstract keys/values (distinct fill bytes of the specified length) is trusted; 32-bit hit/miss wrap-around is out of scope.",
 }
 
